@@ -49,9 +49,14 @@ func submgrKind() kindDef {
 		// sessions are dual-stack (IPv4 + IPv6 from the allocator). .../fault=release-vN: the allocator fails the
 		// release of the victim's IPvN address (error returned, nothing released): every OTHER resource of the
 		// session must still be released and the session must still leave the tables
-		cfgs: []string{"radius", "radius/fault=release-v4", "radius/fault=release-v6"},
+		// .../outage=M: the accounting server is unreachable from the moment the victim's session ends; then the
+		// PROCESS ends and a new one starts on the same persistence directory with the server reachable again:
+		// M=graceful (AccountingManager.Stop while still unreachable), crash (process dies while still unreachable),
+		// heals (reachable again before a graceful shutdown). The accounting clause is judged per session over BOTH
+		// process lifetimes; the bystander's session ends with the process and is accounted by orphan recovery.
+		cfgs: []string{"radius", "radius/fault=release-v4", "radius/fault=release-v6", "radius/outage=graceful", "radius/outage=crash", "radius/outage=heals"},
 		prefixes: func(cfg string) []string {
-			if strings.Contains(cfg, "/fault=") {
+			if strings.Contains(cfg, "/fault=") || strings.Contains(cfg, "/outage=") {
 				return []string{"ACTIVE"}
 			}
 			// ACTIVE-LATE: active, then silent for longer than the idle timeout, then active again BEFORE the next cleanup tick
@@ -60,6 +65,9 @@ func submgrKind() kindDef {
 		morePrefixes: func(cfg string) []string {
 			if strings.Contains(cfg, "/fault=") {
 				return []string{"ADDR"}
+			}
+			if strings.Contains(cfg, "/outage=") {
+				return []string{"ACTIVE-LATE"}
 			}
 			return nil
 		},
@@ -214,6 +222,10 @@ type smWorld struct {
 	qosM   *qos.Manager
 	rs     *radiusScript
 	mount  string
+	fs     *vfs.FS
+	outage string // "", "graceful", "crash", "heals"
+	rc     *bngradius.Client
+	dead   bool // crash: the file system is frozen for the dead process
 	base   mapDump
 	a, b   *smSub
 	active map[string]net.IP // session id -> address, as learned at session_activate
@@ -235,13 +247,18 @@ func newSMWorld(e *kenv, k kase) *smWorld {
 	w.qosM, _ = e.qosManager()
 	w.rs = newRadiusScript()
 	rc := w.rs.client()
+	w.rc = rc
 	w.mount = fmt.Sprintf("/vfs/c16-%d", smSeq.Add(1))
-	vfs.Mount(w.mount, vfs.New())
-	am, err := bngradius.NewAccountingManager(rc, bngradius.AccountingConfig{PersistPath: w.mount + "/acct", InterimEnabled: false}, zap.NewNop())
-	if err != nil {
-		panic(err)
-	}
-	w.acct = am
+	w.fs = vfs.New()
+	w.fs.SetGate(func(op *vfs.Op) (vfs.Effect, error) {
+		if w.dead {
+			return vfs.None, fmt.Errorf("process crashed (file system frozen for it)")
+		}
+		return vfs.Full, nil
+	})
+	vfs.Mount(w.mount, w.fs)
+	_, w.outage, _ = strings.Cut(k.Cfg, "/outage=")
+	w.acct = w.newAcct()
 	w.pool = newSMPool()
 	cfg := subscriber.DefaultManagerConfig()
 	cfg.CleanupInterval, cfg.DefaultIdleTimeout, cfg.DefaultSessionTimeout = smCleanup, smIdle, 0
@@ -249,7 +266,7 @@ func newSMWorld(e *kenv, k kase) *smWorld {
 	w.mgr = subscriber.NewManager(cfg, &smAuth{rc}, w.pool, zap.NewNop())
 	w.mgr.OnEvent(w.onEvent)
 	w.coa = bngradius.NewCoAProcessor(zap.NewNop())
-	w.coa.SetAccountingManager(am)
+	w.coa.SetAccountingManager(w.acct)
 	w.coa.SetSessionLookup(func(id string) (*bngradius.SessionInfo, bool) {
 		if s, ok := w.mgr.GetSession(id); ok {
 			return &bngradius.SessionInfo{SessionID: s.ID, Username: s.Username, MAC: s.MAC, FramedIP: s.IPv4}, true
@@ -262,9 +279,83 @@ func newSMWorld(e *kenv, k kase) *smWorld {
 	return w
 }
 
+// keepAcct keeps every started AccountingManager reachable for the life of the test binary: Go 1.25.0 ties a
+// sync.WaitGroup to the synctest bubble of its first Add by address; managers are therefore never freed (no
+// address is reused by a WaitGroup of a later bubble), always stopped (Wait blocks before the workers are done,
+// which removes the association), and run with DrainOnShutdown=false (the drain's local WaitGroup would not be).
+var (
+	keepAcctMu sync.Mutex
+	keepAcct   []*bngradius.AccountingManager
+)
+
+// newAcct creates the accounting manager of one process life on the world's persistence directory. In the
+// outage configurations it is started (retry worker, crash recovery), as a deployment does.
+func (w *smWorld) newAcct() *bngradius.AccountingManager {
+	cfg := bngradius.AccountingConfig{PersistPath: w.mount + "/acct", InterimEnabled: false}
+	if w.outage != "" {
+		// MaxRetries: the outage must not outlast the retry budget (giving up after N retries is by design)
+		cfg.DrainOnShutdown, cfg.MaxRetries, cfg.QueueSize = false, 1<<20, 64
+	}
+	am, err := bngradius.NewAccountingManager(w.rc, cfg, zap.NewNop())
+	if err != nil {
+		panic(err)
+	}
+	if w.outage != "" {
+		keepAcctMu.Lock()
+		keepAcct = append(keepAcct, am)
+		keepAcctMu.Unlock()
+		if err := am.Start(); err != nil {
+			panic("harness: accounting manager: " + err.Error())
+		}
+		synctest.Wait()
+	}
+	return am
+}
+
 func (w *smWorld) close() {
+	if w.outage != "" {
+		w.acct.Stop() // no-op when already stopped; every goroutine of the manager has ended before the bubble does
+		synctest.Wait()
+	}
 	w.rs.close()
 	vfs.Unmount(w.mount)
+}
+
+// endOfProcess: the outage tail. The process ends (gracefully or by a crash), a new one starts on the same
+// persistence directory with the accounting server reachable, and gets time to recover orphans and drain its
+// queue. Then the accounting clause is evaluated per session over both lifetimes.
+func (w *smWorld) endOfProcess(site string) {
+	settle := func(d time.Duration) { time.Sleep(d); synctest.Wait() }
+	switch w.outage {
+	case "heals":
+		w.rs.set(false, false)
+		settle(3 * time.Minute) // the retry worker delivers what it queued
+		w.acct.Stop()
+		site += ";SHUTDOWN"
+	case "graceful":
+		w.acct.Stop()
+		site += ";SHUTDOWN(unreachable)"
+	case "crash":
+		// as in C08: the environment is frozen for the dead process, the zombie is ended unobservably
+		w.dead = true
+		w.rs.set(true, true)
+		w.acct.Stop()
+		synctest.Wait()
+		w.dead = false
+		site += ";CRASH(unreachable)"
+	}
+	synctest.Wait()
+	w.rs.set(false, false)
+	w.acct = w.newAcct() // next process life: Start() recovers orphans and the persisted queue
+	settle(3 * time.Minute)
+	site += ";RESTART"
+	for _, c := range []*smSub{w.a, w.b} {
+		for _, x := range w.rs.stopOracle(c.id) {
+			w.add("accounting-stop-count", site, "over both process lifetimes, %s's %s: %s", c.name, x, w.rs.render())
+		}
+	}
+	w.acct.Stop()
+	synctest.Wait()
 }
 
 // onEvent: what a deployment hangs on the manager's events.
@@ -368,6 +459,9 @@ func runSubMgr(e *kenv, k kase) (res result) {
 	}
 	res.held = strings.Join(h, ",")
 
+	if w.outage != "" {
+		w.rs.set(true, false) // the accounting server becomes unreachable now
+	}
 	var d1 string
 	var n1 int
 	for i, t := range k.Terms {
@@ -393,6 +487,9 @@ func runSubMgr(e *kenv, k kase) (res result) {
 	}
 	if len(w.viols) == 0 {
 		w.probe(strings.Join(k.Terms, ";"))
+	}
+	if len(w.viols) == 0 && w.outage != "" {
+		w.endOfProcess(strings.Join(k.Terms, ";"))
 	}
 	res.viols = w.viols
 	return
@@ -498,13 +595,10 @@ func (w *smWorld) checkReleased(site string) {
 	for _, x := range cur.missingKeys(w.base) {
 		w.add("bystander-damaged", site, "kernel map entry %s of the bystander disappeared", x)
 	}
-	starts, stops := w.rs.count(w.a.id)
-	want := 0
-	if starts > 0 {
-		want = 1
-	}
-	if stops != want {
-		w.add("accounting-stop-count", site, "%d Accounting-Start and %d Accounting-Stop for the victim (want %d Stop): %s", starts, stops, want, w.rs.render())
+	if w.outage == "" { // with an outage the Stop cannot arrive yet: judged over both process lifetimes in endOfProcess
+		for _, x := range w.rs.stopOracle(w.a.id) {
+			w.add("accounting-stop-count", site, "%s: %s", x, w.rs.render())
+		}
 	}
 	if _, ok := w.acct.GetSession(w.a.id); ok {
 		w.add("accounting-stop-count", site, "the accounting manager still tracks the victim's session")
